@@ -79,7 +79,8 @@ RULE = ("a case is a history of 2-8 library calls (placers incl. rand/sa with a 
         "arguments; half of the histories are made of TWINS of the probe's problem (equal in everything but one of: dead "
         "links, one dead chip, resource exceptions, net weights, one constraint, one vertex's resources, wrap-around "
         "links), the public wrappers with all option combinations, the annealing placer on a problem with a pinned vertex "
-        "and same-chip groups placed three times with vertices that are equal but hash differently, bit-field tags "
+        "and same-chip groups placed three times with vertices that are equal but hash differently, the three single-table "
+        "minimisers on one kept table of mixed generality that is not in order, bit-field tags "
         "are also passed as the caller's own sets/lists shared between two bit fields; "
         "distinct = distinct (history, probe) specs")
 
